@@ -13,3 +13,5 @@ pub assume_specification<'a> [<String as PartialEq<&'a str>>::eq] (a: &String, b
     ensures r == (a@ == b@);
 pub assume_specification [<String as PartialEq<str>>::eq] (a: &String, b: &str) -> (r: bool)
     ensures r == (a@ == b@);
+pub assume_specification [<str as PartialEq<str>>::eq] (a: &str, b: &str) -> (r: bool)
+    ensures r == (a@ == b@);
